@@ -136,13 +136,13 @@ def cfg():
 
 def specs(tier):
     out = [
-        Spec("h1_race_2", build_race(2, 2), cfg=cfg(), unwind=3, timeout=600,
+        Spec("h1_race_2", build_race(2, 2), cfg=cfg(), unwind=3, timeout=1800,
              desc="2 threads each call a solver-chosen real entry point (execute / parallel_execute(Some|None) / "
                   "fallback_sequential); block bodies are counting ghosts",
              bounds={"threads": 2, "memory_model": "SC"}),
-        Spec("h1_race_3", build_race(2, 3), cfg=cfg(), unwind=3, timeout=900,
+        Spec("h1_race_3", build_race(2, 3), cfg=cfg(), unwind=3, timeout=2700,
              desc="3 racing callers", bounds={"threads": 3}),
-        Spec("h2_sequence_3", build_seq(2, 3), cfg=cfg(), unwind=3, timeout=600,
+        Spec("h2_sequence_3", build_seq(2, 3), cfg=cfg(), unwind=3, timeout=1800,
              desc="3 successive calls with solver-chosen entry points", bounds={"calls": 3}),
     ]
     return out
